@@ -423,6 +423,7 @@ type State struct {
 	nlock  int
 	ghostN map[string]int
 	retOrd int // ordinal of the return statement being executed (0 = none yet / fall off the end)
+	epoch  int // bumped by a wholesale havoc: untouched heap keys then resolve to fresh symbols
 }
 
 func NewState() *State {
@@ -431,7 +432,7 @@ func NewState() *State {
 
 func (s *State) Clone() *State {
 	n := &State{vars: make(map[*types.Var]*Term, len(s.vars)), heap: make(map[string]*Term, len(s.heap)), locks: make(map[string]string, len(s.locks)),
-		snaps: s.snaps, nlock: s.nlock, ghostN: s.ghostN, retOrd: s.retOrd}
+		snaps: s.snaps, nlock: s.nlock, ghostN: s.ghostN, retOrd: s.retOrd, epoch: s.epoch}
 	for k, v := range s.vars {
 		n.vars[k] = v
 	}
@@ -495,7 +496,7 @@ func (e *Engine) Heap(st *State, key string, s *Sort) *Term {
 	if t, ok := st.heap[key]; ok {
 		return t
 	}
-	t := Var("H0$"+smtIdent(strings.TrimPrefix(key, jivaMod+"/")), s)
+	t := initHeapSym(st, key, s)
 	st.heap[key] = t
 	return t
 }
@@ -680,4 +681,24 @@ func (e *Engine) pos(n ast.Node) string {
 	}
 	p := e.fset.Position(n.Pos())
 	return fmt.Sprintf("%s:%d", strings.TrimPrefix(p.Filename, e.repo+"/"), p.Line)
+}
+
+// initHeapSym: the symbol a heap key has in st before anything in this epoch touched it.
+func initHeapSym(st *State, key string, s *Sort) *Term {
+	return Var(fmt.Sprintf("H%d$%s", st.epoch, smtIdent(strings.TrimPrefix(key, jivaMod+"/"))), s)
+}
+
+// havocAll forgets everything about the heap and the ghost state (a callee with an unchecked frame ran).
+func (e *Engine) havocAll(st *State) {
+	al := st.heap["$alloc"]
+	st.heap = map[string]*Term{}
+	freshCtr++
+	st.epoch = freshCtr
+	if al != nil {
+		// allocation only grows
+		na := initHeapSym(st, "$alloc", al.S)
+		r := Var("r!al", IntSort)
+		st.Assume(Forall([]*Term{r}, Implies(Select(al, r), Select(na, r))))
+		st.heap["$alloc"] = na
+	}
 }
